@@ -7,6 +7,8 @@ use tarc::BaseArc;
 #[cfg_attr(feature = "abi_stable", derive(::abi_stable::StableAbi))]
 struct OpaqueRawWakerVtbl {
     clone: unsafe extern "C" fn(OpaqueRawWaker) -> CRawWaker,
+    // Kept for layout compatibility; a shared record is woken through `wake_by_ref`.
+    #[allow(dead_code)]
     wake: unsafe extern "C" fn(OpaqueRawWaker),
     wake_by_ref: unsafe extern "C" fn(OpaqueRawWaker),
     drop: unsafe extern "C" fn(OpaqueRawWaker),
@@ -59,8 +61,11 @@ impl CRawWaker {
             CRawWaker::to_raw(waker)
         }
         unsafe fn wake(data: *const ()) {
+            // Other handles may still share this record, so the inner waker can not be consumed
+            // here. Wake it by reference and release only this handle; the inner waker is
+            // released together with the record (see `Drop for CRawWaker`).
             let this = BaseArc::from_raw(data as *const CRawWaker);
-            (this.vtable.wake)(this.waker)
+            (this.vtable.wake_by_ref)(this.waker)
         }
         unsafe fn wake_by_ref(data: *const ()) {
             let data = data as *const CRawWaker;
@@ -68,13 +73,19 @@ impl CRawWaker {
             (this.vtable.wake_by_ref)(this.waker)
         }
         unsafe fn drop(data: *const ()) {
-            let this = BaseArc::from_raw(data as *const CRawWaker);
-            (this.vtable.drop)(this.waker)
+            let _ = BaseArc::from_raw(data as *const CRawWaker);
         }
 
         let vtbl = &RawWakerVTable::new(clone, wake, wake_by_ref, drop);
 
         RawWaker::new(this.into_raw() as *const (), vtbl)
+    }
+}
+
+impl Drop for CRawWaker {
+    fn drop(&mut self) {
+        // Runs once per record, when the last handle sharing it is gone.
+        unsafe { (self.vtable.drop)(self.waker) }
     }
 }
 
